@@ -2,8 +2,13 @@
 // exit status recorded in a link's byproducts (None: no status was recorded)
 pub uninterp spec fn bp_return_value(b: ByProducts) -> Option<i32>;
 pub open spec fn exit_ok(l: LinkMetadata) -> bool { bp_return_value(l.byproducts) is None || bp_return_value(l.byproducts) == Some(0i32) }
-// assumed meaning of runlib::in_toto_run(name, Some("."), ["."], ["."], args, None, None, None): the link it returned records a run of `args`
-pub uninterp spec fn ran_as(name: Seq<char>, args: Seq<Seq<char>>, l: LinkMetadata) -> bool;
+// `cmd_ran(args, dir, b)`: byproducts `b` are what runlib::run_command(args, dir) reported (its meaning - exit code of the
+// spawned process, UTF-8 of its streams, a process ended by a signal is an error - is proved in unit runcmd)
+pub uninterp spec fn cmd_ran(args: Seq<Seq<char>>, dir: Option<Seq<char>>, b: ByProducts) -> bool;
+// the link records a run of `args` under the given name (proved of runlib::in_toto_run in unit runlib_run)
+pub open spec fn ran_as(name: Seq<char>, args: Seq<Seq<char>>, l: LinkMetadata) -> bool {
+    l.name@ == name && exists|dir: Option<Seq<char>>| cmd_ran(args, dir, l.byproducts)
+}
 impl Command { pub closed spec fn words(self) -> Seq<String> { self.0@ } }
 pub open spec fn cmd_tokens(c: Command) -> Seq<Seq<char>> { Seq::new(c.words().len(), |i: int| c.words()[i]@) }
 pub open spec fn inspections_ran(layout: LayoutMetadata, links: Map<String, LinkMetadata>) -> bool {
